@@ -170,6 +170,8 @@ type world struct {
 	onCycle   map[string]bool        // the mutex can reach itself along nesting edges (a self edge included)
 	lockBad   map[string]bool        // not free, on a cycle, or a critical section of it acquires such a mutex
 	lockOrder []string               // a topological order of the nesting relation (mutexes on cycles last)
+
+	tpInst map[*types.TypeParam][]types.Type // type parameter -> type arguments of every instantiation in the loaded packages
 }
 
 type valRef struct {
@@ -517,6 +519,85 @@ func (w *world) staticCallee(info *types.Info, e ast.Expr) types.Object {
 		return w.staticCallee(info, f.X)
 	}
 	return nil
+}
+
+// typeParamMethods: t is a type parameter (or a pointer to one): the methods named like `o` of every concrete type it is
+// instantiated with in the loaded packages.  ok = false: t is not a type parameter, or no instantiation is known / one of
+// them has no such method (the call then stays unfollowed).
+func (w *world) typeParamMethods(t types.Type, o *types.Func) ([]*types.Func, bool) {
+	if t == nil {
+		return nil, false
+	}
+	if p, ok := types.Unalias(t).(*types.Pointer); ok {
+		t = p.Elem()
+	}
+	tp, ok := types.Unalias(t).(*types.TypeParam)
+	if !ok {
+		return nil, false
+	}
+	if w.tpInst == nil {
+		// index: type parameter -> type arguments at every instantiation of its generic function / type
+		w.tpInst = map[*types.TypeParam][]types.Type{}
+		for _, path := range w.order {
+			for id, inst := range w.pkgs[path].info.Instances {
+				var tps *types.TypeParamList
+				switch g := w.pkgs[path].info.Uses[id].(type) {
+				case *types.Func:
+					if sg, ok := g.Type().(*types.Signature); ok {
+						tps = sg.TypeParams()
+					}
+				case *types.TypeName:
+					if n, ok := g.Type().(*types.Named); ok {
+						tps = n.TypeParams()
+					}
+				}
+				for i := 0; tps != nil && i < tps.Len() && i < inst.TypeArgs.Len(); i++ {
+					w.tpInst[tps.At(i)] = append(w.tpInst[tps.At(i)], inst.TypeArgs.At(i))
+				}
+			}
+		}
+	}
+	var concrete []types.Type
+	seen := map[*types.TypeParam]bool{}
+	var expand func(tp *types.TypeParam) bool
+	expand = func(tp *types.TypeParam) bool {
+		if seen[tp] {
+			return true
+		}
+		seen[tp] = true
+		args := w.tpInst[tp]
+		if len(args) == 0 {
+			return false
+		}
+		for _, a := range args {
+			if q, ok := types.Unalias(a).(*types.TypeParam); ok {
+				if !expand(q) {
+					return false
+				}
+				continue
+			}
+			concrete = append(concrete, a)
+		}
+		return true
+	}
+	if !expand(tp) || len(concrete) == 0 {
+		return nil, false
+	}
+	var out []*types.Func
+	done := map[*types.Func]bool{}
+	for _, c := range concrete {
+		obj, _, _ := types.LookupFieldOrMethod(c, true, o.Pkg(), o.Name())
+		m, ok := obj.(*types.Func)
+		if !ok {
+			return nil, false
+		}
+		if !done[m] {
+			done[m] = true
+			out = append(out, m)
+		}
+	}
+	sort.Slice(out, func(i, j int) bool { return out[i].FullName() < out[j].FullName() })
+	return out, true
 }
 
 // derivedExpr: is e a context derived from the node context (under the current set of derived variables)?
@@ -1313,6 +1394,31 @@ func (w *world) walkNode(n ast.Node, fr *frame) []Point {
 			case *types.Func:
 				sig, _ := o.Type().(*types.Signature)
 				if sig != nil && sig.Recv() != nil && types.IsInterface(sig.Recv().Type()) {
+					// a method call on a TYPE PARAMETER (`items[l-1].Height()` in `lastItemHeight[T interface{ Height() uint64 }]`,
+					// refactoring R3): not an interface call - resolved through the instantiations of the generic function
+					// (go/types Info.Instances, closed world over the loaded packages; a type argument that is itself a type
+					// parameter is resolved through ITS instantiations) and followed like a static call.  Only when no
+					// instantiation is known does it stay an unfollowed call on "T" (reported by C13_boundary_declared).
+					if s, ok := fun.(*ast.SelectorExpr); ok {
+						if ms, ok := w.typeParamMethods(info.TypeOf(s.X), o); ok {
+							for _, m := range ms {
+								msig, _ := m.Type().(*types.Signature)
+								switch {
+								case msig != nil && msig.Recv() != nil && types.IsInterface(msig.Recv().Type()):
+									if isRepoPkg(m.Pkg()) {
+										w.boundary[[3]string{fr.caller, strings.TrimPrefix(types.TypeString(msig.Recv().Type(), func(p *types.Package) string { return strings.TrimPrefix(p.Path(), repoMod+"/") }), "*"), m.Name()}] = true
+									} else if m.Pkg() != nil {
+										w.external[m.Pkg().Path()] = true
+									}
+								case isRepoPkg(m.Pkg()):
+									followFn(x, m.Origin(), true)
+								case m.Pkg() != nil:
+									w.external[m.Pkg().Path()] = true
+								}
+							}
+							return true
+						}
+					}
 					if isRepoPkg(o.Pkg()) {
 						iface := "?"
 						if s, ok := fun.(*ast.SelectorExpr); ok {
